@@ -95,7 +95,7 @@ func Tick() {
 	if !active.Load() {
 		return
 	}
-	if n := ticks.Add(1); maxTicks > 0 && n > maxTicks {
+	if n := ticks.Add(1); maxTicks > 0 && n > maxTicks+2*dynSteps.Load() {
 		livelock.Store(true)
 		ParkForever()
 	}
@@ -191,6 +191,20 @@ func Crash(why string) {
 }
 
 func Ticks() int64 { return ticks.Load() }
+
+// AddStepBudget is called by the seam for every successful read of n input bytes: the step budget of a run is
+// MaxSteps + stepsPerInputByte * bytes consumed, so that a long input (under batch size 1 and 1-byte reads) is not
+// mistaken for a livelock, while a loop that makes no progress through its finite input still is - also when it
+// keeps producing output.
+const stepsPerInputByte = 1000
+
+var dynSteps atomic.Int64
+
+func AddStepBudget(n int) {
+	if n > 0 && active.Load() {
+		dynSteps.Add(int64(n) * stepsPerInputByte)
+	}
+}
 
 // Knob returns an overridden tuning value (env VERIF_KNOB_<name>) or the default.
 func Knob(name string, def int) int {
@@ -541,7 +555,7 @@ func Run(cfg Config, wait func(), sut func()) *Outcome {
 			mu.Unlock()
 			break
 		}
-		if out.Steps > cfg.MaxSteps {
+		if int64(out.Steps) > int64(cfg.MaxSteps)+dynSteps.Load() {
 			out.Status = "livelock"
 			break
 		}
